@@ -263,7 +263,8 @@ def gen_case(prop, seed, tier):
     return {
         "seed": seed,
         "net": {"inputs": inputs, "output": output, "size_dict": size_dict,
-                "array_seed": net_rng.randrange(2 ** 31), "complex": sw.random() < 0.2},
+                "array_seed": net_rng.randrange(2 ** 31), "complex": sw.random() < 0.2,
+                "dtype": sw.choice([None, None, None, None, None, "int"])},
         "init": init,
         "ops": ops,
         "tick": sw.choice([0.0, 0.001, 0.02]),
@@ -356,7 +357,7 @@ class Net:
         self.inputs = tuple(tuple(t) for t in d["inputs"])
         self.output = tuple(d["output"])
         self.size_dict = {k: int(v) for k, v in d["size_dict"].items()}
-        self.arrays = netgen.make_arrays(self.inputs, self.size_dict, d["array_seed"], complex_=d.get("complex", False))
+        self.arrays = netgen.make_arrays(self.inputs, self.size_dict, d["array_seed"], complex_=d.get("complex", False), dtype=d.get("dtype"))
         self._ref_cache = {}
 
     def reference(self, projected):
